@@ -50,6 +50,10 @@ RULE = (
     "text in a later hashing chunk, and the mirror image, staged into md5-dos2unix / md5 stores and migrated in both "
     "directions, then transferred with verify; no Coq evaluation for these (a MiB through the Gallina MD5 is out of "
     "reach), the hashlib oracle judges every store after every step. "
+    "Large-file thread pool, ORACLE ONLY (6 fixed cases per run = 3 size orders x {build+transfer, index "
+    "build_entries(compute_hash)+save}): one directory with four files of 24, 6, 2.25 and 1.125 MiB, the first-LISTED "
+    "one (walk order observed) the largest, checksum_jobs=4, so that the pool's completion order differs from the "
+    "listing order; every object must be named by its digest and every staged content present under its digest. "
     "Input-space audit (tools/COVERAGE_AUDIT.md), FIXED cases of every run: through the model - one tree with every "
     "name class (backslash, space, leading dot, Cyrillic, CJK, emoji, a non-NFC name next to its composed twin, "
     "names ending in .dir/.DIR, prefix siblings, 1 and 200 characters, case twins), every shape (empty directory, "
@@ -79,9 +83,11 @@ ASSUMPTIONS = [
     "soundness is checked here by correspondence + re-hash oracle, its own invariant is C13)",
     "leftovers: objects that sit unprotected in a directory when it is reopened under the local class may stay "
     "unprotected until an operation of the history adds or covers them (the oracle tracks that set with hashlib only)",
-    "held back pending the lead's decision, both reproduce on the unchanged code (flags PROBE_HARDLINK_VERIFY_LOCAL, "
-    "PROBE_ADD_BYTES_LOCAL): transfer(verify=True, hardlink=True) local->local lets a rotten 0o444 source object in "
-    "(the link carries the mode, check trusts it); odb.add_bytes on a local-class store leaves the object 0o644",
+    "outside the property's quantifier by the lead's ruling, kept off (flags PROBE_HARDLINK_VERIFY_LOCAL, "
+    "PROBE_ADD_BYTES_LOCAL): transfer(verify=True, hardlink=True) local->local of a ROTTEN write-protected source object "
+    "(rot is not a dvc-data operation; trust-by-mode is C07's explicit exclusion 'not write-protected') - the link carries "
+    "0o444 and is trusted; odb.add_bytes (dvc_objects' method, not one of stage/add/transfer/save/migrate) on a "
+    "local-class store leaves the object 0o644",
     "held back (judged outside the property, which speaks of migrating to ANOTHER algorithm): migrate between two "
     "stores of ONE algorithm whose destination State knows the source paths - a shared State, or a store migrated onto "
     "itself - (PROBE_SAME_ALG_MIGRATE_WITH_STATE); it doubles the '.dir' suffix of directory objects",
@@ -98,7 +104,7 @@ CLS_CTOR = {"local": "Local", "base": "Base"}
 # lead as a suspected genuine defect; see the module's report).  Until it is decided the generator holds such
 # migrations back in shared-State histories; set to True to generate them.
 PROBE_SAME_ALG_MIGRATE_WITH_STATE = False
-# Held back until the lead decides (each is a history on which the REAL code leaves C01; see the builder's report):
+# Outside the property's quantifier by the lead's ruling (kept off; see ASSUMPTIONS):
 #  * transfer(verify=True, hardlink=True) from a local-class source holding a rotten 0o444 object into a local-class
 #    destination: the hard link carries mode 0o444, LocalHashFileDB.check trusts it, the bytes are never hashed
 PROBE_HARDLINK_VERIFY_LOCAL = False
@@ -1037,6 +1043,7 @@ def run(ctx):
             items.append((case, inp, exp))
     run_large(ctx)
     run_audit(ctx, dims)
+    run_bigdir(ctx, dims)
     ctx.extra["input_dimensions"] = dict(sorted(dims.items()))
     ctx.obligation("oracle:rehash-every-object-after-every-step",
                    not any(v.kind == "oracle" for v in ctx.violations),
@@ -1237,7 +1244,83 @@ def run_large(ctx):
             ctx.oracle_fail(sig, f"after step {step}: {what}", {**case, "ops": case["ops"][:step + 1]})
 
 
+BIG_SIZES = [24 * CHUNK + 1, 6 * CHUNK + 3, 2 * CHUNK + CHUNK // 4, CHUNK + CHUNK // 8]
+BIG_ORDERS = [[0, 1, 2, 3], [0, 2, 1, 3], [1, 0, 3, 2]]  # which size the i-th LISTED file gets
+
+
+def big_content(i: int, size: int) -> bytes:
+    unit = (b"file-%d:" % i) + bytes(range(256)) + b"\r\n"
+    return (unit * (size // len(unit) + 1))[:size]
+
+
+def run_bigdir_case(ctx, case):
+    """one directory with four files above the large-file thresholds (2^20 for build, 2^21 for index
+    build_entries), of different sizes, the first-listed one the largest, hashed by the thread pool with 4 jobs - the
+    pool's completion order then differs from the listing order.  ORACLE ONLY (no Coq literals of this size).
+    returns the problems of the hashlib audit"""
+    from dvc_objects.fs.local import localfs
+
+    from dvc_data.hashfile.build import build
+    from dvc_data.hashfile.transfer import transfer
+    from dvc_data.index import DataIndex, FileStorage
+    from dvc_data.index import save as isave
+    from dvc_data.index.build import build_entries
+
+    root = ctx.fresh("c01big")
+    ws = os.path.join(root, "ws", "d")
+    os.makedirs(ws)
+    names = ["m", "b", "zz", "a0"]
+    for n in names:
+        open(os.path.join(ws, n), "wb").close()
+    listed = [f for _r, _d, files in localfs.walk(ws) for f in files]  # the order the walk yields (observed)
+    assert sorted(listed) == sorted(names)
+    for pos, n in enumerate(listed):
+        with open(os.path.join(ws, n), "wb") as f:
+            f.write(big_content(pos, BIG_SIZES[case["order"][pos]]))
+    cfg = [[case["cls"], case["alg"]]]
+    roots = [os.path.join(root, "store")]
+    os.makedirs(roots[0])
+    odb = impl.make_odb(case["cls"], roots[0], hash_name=case["alg"])
+    if case["route"] == "build":
+        staging, _m, obj = build(odb, os.path.join(root, "ws"), localfs, case["alg"], checksum_jobs=4)
+        transfer(staging, odb, {obj.hash_info}, shallow=False)
+    else:
+        idx = DataIndex()
+        idx.storage_map.add_data(FileStorage(key=(), fs=localfs, path=os.path.join(root, "ws")))
+        for e in build_entries(os.path.join(root, "ws"), localfs, compute_hash=True, hash_name=case["alg"],
+                               checksum_jobs=4):
+            idx.add(e)
+        isave(idx, odb=odb)
+    snaps = [impl.walk_store(roots[0])]
+    problems = audit(cfg, snaps, roots)
+    want = {digest(case["alg"], big_content(pos, BIG_SIZES[case["order"][pos]])) for pos in range(4)}
+    lost = sorted(want - set(snaps[0]))
+    if lost:
+        problems.append(("C01:staged-content-not-filed-under-its-digest",
+                         f"the store lacks {lost}: the content of a staged file is not there under its own digest"))
+    impl.rm_rf(root)
+    return problems
+
+
+def run_bigdir(ctx, dims):
+    k = 0
+    for order in BIG_ORDERS:
+        for route in ("build", "index"):
+            case = {"bigdir": True, "order": order, "route": route, "cls": ["local", "base"][k % 2],
+                    "alg": ["md5", "md5-dos2unix", "md5"][k % 3]}
+            k += 1
+            problems = run_bigdir_case(ctx, case)
+            ctx.case(case, True)
+            ctx.count("stream:large-files-thread-pool")
+            dims["flag:checksum_jobs=4,>=3-large-files"] = dims.get("flag:checksum_jobs=4,>=3-large-files", 0) + 1
+            for sig, what in problems:
+                ctx.oracle_fail(sig, what, case)
+
+
 def replay_case(ctx, case):
+    if case.get("bigdir"):
+        problems = run_bigdir_case(ctx, case)
+        return {"problems": problems, "violates": bool(problems)}
     c, inp, exp, problems, changed, kinds = run_history(ctx, case["stores"], case["ops"], 0, False,
                                                         case.get("state") or False)
     return {"problems": problems, "violates": bool(problems), "steps_run": len(c["ops"])}
